@@ -144,6 +144,11 @@ def run(ctx, rep):
     missing = set(ANCHORS) - seen
     rep.check(not missing, "R07.1", "coverage", "Transform impls missing for %s" % sorted(missing), status="undecided")
     polyline_translate_use(prog, rep)
+    try:
+        polyline_box_paths(prog, rep)
+    except Exception as e:
+        import traceback; traceback.print_exc()
+        rep.fail("R07.5", "engine", "polyline box analysis crashed: %r" % (e,), status="undecided")
 
 
 def polyline_translate_use(prog, rep):
@@ -236,3 +241,89 @@ def _places(s):
     return out
 
 
+
+
+def polyline_box_paths(prog, rep):
+    """R07.5 a polyline is moved by its `translate` field only, so its (non-empty) bounding box shifts with the object iff
+    every vertex that goes into the box has `self.translate` added — on *every* path of Polyline::bounding_box, not just on
+    one (R07.3).  Path summaries: a path returns the documented empty box (Rectangle::zero() / a zero-sized rectangle), or
+    every use of the vertex slice in its result is `vertex + self.translate` (directly, or through a `map` whose closure
+    adds the captured polyline's translate)."""
+    from mirq.paths import Paths, Unsupported, show_fact
+    PLT = "embedded_graphics::primitives::polyline::Polyline"
+    f = prog.by_path.get("<" + PLT + "<'_> as embedded_graphics_core::geometry::Dimensions>::bounding_box", [None])[0]
+    if f is None:
+        rep.fail("R07.5", "Polyline::bounding_box", "anchor lost", status="undecided")
+        return
+    fi = {fd["name"]: i for i, fd in enumerate(prog.adts[PLT]["variants"][0]["fields"])}
+    me = ("param", 1, "self")
+    verts, tr = ("field", me, fi["vertices"]), ("field", me, fi["translate"])
+    P_ = Paths(prog, inline=lambda g: prog.is_new(g))
+    try:
+        summs = P_.of(f)
+    except Unsupported as e:
+        rep.fail("R07.5", "Polyline::bounding_box", "cannot summarise: %s" % e, status="undecided", at=f.span, fn=f.path)
+        return
+
+    def from_verts(t):
+        return any(isinstance(n, tuple) and n and strip_refs(n) == verts for n in walk(t))
+
+    def is_tr(t):
+        t = strip_refs(t)
+        if t == tr:
+            return True
+        return t[0] == "field" and t[2] == fi["translate"] and strip_refs(t[1])[0] == "upvar"     # ^self.translate in a closure
+
+    def closure_adds(c):
+        c = strip_refs(c)
+        if not (c[0] == "agg" and isinstance(c[1], str) and c[1].startswith("closure:")):
+            return False
+        item = ("param", 99, "vertex")
+        try:
+            cs = P_._apply_callable(c, [item], 0)      # the closure's cases with its captures substituted
+        except Exception:
+            cs = None
+        if not cs:
+            return False
+        for facts_, effects_, r in cs:
+            r = strip_refs(r)
+            if effects_ or not (r[0] == "call" and r[1].split("::")[-1] == "add" and len(r[3]) == 2 and any(is_tr(x) for x in r[3]) and any(strip_refs(x) == item for x in r[3])):
+                return False
+        return True
+    bad = []
+
+    def visit(t):
+        """report vertex uses that are not translated"""
+        t0 = strip_refs(t)
+        if not isinstance(t0, tuple) or not t0 or not from_verts(t0):
+            return
+        if t0[0] == "call" and t0[1].split("::")[-1] == "add" and len(t0[3]) == 2 and any(is_tr(x) for x in t0[3]):
+            return       # vertex + translate
+        if t0[0] == "call" and t0[1].split("::")[-1] == "map" and len(t0[3]) == 2 and closure_adds(t0[3][1]):
+            return       # vertices.iter().map(|v| *v + self.translate)
+        if t0[0] == "call" and t0[1].split("::")[-1] == "translate" and len(t0[3]) == 2 and is_tr(t0[3][1]):
+            return       # box.translate(self.translate)
+        if t0 == verts or (t0[0] in ("payload", "index", "proj") and from_verts(t0) and not any(isinstance(x, tuple) and x and isinstance(x[0], str) and x[0] == "call" and x[1].split("::")[-1] in ("map", "add") for x in walk(t0))):
+            bad.append(show(t0, maxd=4))
+            return
+        for x in t0[1:]:
+            if isinstance(x, tuple) and x and isinstance(x[0], str):
+                visit(x)
+            elif isinstance(x, tuple):
+                for y in x:
+                    if isinstance(y, tuple) and y and isinstance(y[0], str):
+                        visit(y)
+    n = 0
+    for sm in summs:
+        r = strip_refs(sm.ret)
+        if r[0] == "call" and r[1].endswith("Rectangle::zero"):
+            continue
+        if r[0] == "call" and r[1].endswith("Rectangle::new") and len(r[3]) == 2 and strip_refs(r[3][1])[0] == "call" and strip_refs(r[3][1])[1].endswith("Size::zero"):
+            continue     # the documented empty box of a single vertex
+        n += 1
+        before = len(bad)
+        visit(r)
+        if len(bad) > before:
+            bad[before:] = ["when %s the box is built from %s without adding self.translate" % ("; ".join(show_fact(x)[:60] for x in sm.facts[:2]) or "always", "; ".join(bad[before:][:2]))]
+    rep.check(not bad and n >= 1, "R07.5", "Polyline::bounding_box", "every vertex that goes into a non-empty polyline bounding box must be moved by self.translate: %s" % ("; ".join(bad[:2]) or "no non-empty path found"),
+              at=f.span, fn=f.path, detail={"paths": len(summs), "non_empty": n})
